@@ -102,6 +102,8 @@ def main():
         res['checks'] = {}
         for cid in checks:
             for tier in ('quick','thorough'):
+                if tier == 'thorough' and cid in os.environ.get('SEED_EVAL_NO_THOROUGH','').split(','):
+                    continue
                 t0=time.time()
                 p = subprocess.run(['./check', cid, '--tier', tier], cwd='/verif', stdout=subprocess.PIPE, stderr=subprocess.STDOUT)
                 out = p.stdout.decode(errors='replace')
